@@ -53,7 +53,8 @@ def run_case(job):
             cfgd['lifecycle'] = False  # the shipped SAF file has no life-cycle CO2 value: that switch is refused for it
         load_emis_config(cfgd)
         fuel = fuel_obj(fuelname)
-        pm = model(case['flows'], case['apu'], aclass, case.get('modeorder', 'idle_first'))
+        # (InventoryGen.tla EdbForms: one form of the engine's nvPM data per flight)
+        pm = model(case['flows'], case['apu'], aclass, case.get('modeorder', 'idle_first'), case.get('edb', 'reported'))
         traj = synthetic_traj(case['burn'], case['nc'], case['nd'], carrier=case.get('carrier', 'container'), profile=case.get('profile', 'high'))
         try:
             em = compute_emissions(pm, fuel, traj)
